@@ -23,7 +23,7 @@ theorem step_data (s : State) (hT : s.missingTerm ≠ 0) (r : Nat) (e : Elem α)
   cases e with
   | item a => simp only [step, hT, if_false]; cases s.pending <;> simp [Elem.isData]
   | ts a t => simp only [step, hT, if_false]; cases s.pending <;> simp [Elem.isData]
-  | flushBatch => simp [step, hT, Elem.isData]
+  | flushBatch => simp only [step, hT, if_false]; cases s.pending <;> simp [Elem.isData]
   | wm t =>
     simp only [step, hT, if_false, Elem.isData]
     rcases hu : s.frontier.update r t with ⟨f, o⟩
@@ -45,10 +45,12 @@ theorem start_data_order_from (as : List (Arrival α)) : ∀ (s : State) (sp : I
     rw [outs_cons, List.filter_append]
     cases a with
     | timeout =>
-      have hst : step s (Arrival.timeout : Arrival α) = (s, [.flushBatch]) := by simp [step, hT]
-      rw [hst]
-      simp only [List.filter_cons, Elem.isData, List.filter_nil, List.nil_append, elemsOf]
-      exact ih s sp inv hT (by simpa [elemsOf] using hin)
+      obtain ⟨inv', hT', pre0, hout, hpre0⟩ := inv_timeout (α := α) inv hT
+      have hnd : (step s (Arrival.timeout : Arrival α)).2.filter Elem.isData = [] := by
+        rw [hout]; rcases hpre0 with h | ⟨p, h⟩ <;> subst h <;> simp [Elem.isData]
+      rw [hnd]
+      simp only [List.nil_append, elemsOf]
+      exact ih _ sp inv' hT' (by simpa [elemsOf] using hin)
     | elem r e =>
       simp only [elemsOf, inputOkFrom] at hin
       cases hs : inStep sp r e with
